@@ -7,6 +7,7 @@ PATCH=$(readlink -f "$1"); shift
 WT=${MUT:-/tmp/mut}-wt
 MH=${MUT:-/tmp/mut}-harness
 TIER=${TIER:-quick}
+MUT=${MUT:-/tmp/mut}
 git -C /repo worktree remove --force $WT >/dev/null 2>&1
 rm -rf $WT
 git -C /repo worktree add -q --detach $WT HEAD || exit 2
@@ -31,13 +32,13 @@ PY
       ;;
     C14|C17|C01|C19)
       (cd $MH && CARGO_NET_OFFLINE=true cargo build --release --offline -p vapp 2>&1 | grep -E "^error" -A8 | head -30)
-      $MH/target/release/vapp $ID --tier $TIER --out /tmp/mut-$ID.json >/dev/null 2>&1
-      out=$(cat /tmp/mut-$ID.json)
+      $MH/target/release/vapp $ID --tier $TIER --out $MUT-out-$ID.json >/dev/null 2>&1
+      out=$(cat $MUT-out-$ID.json)
       ;;
     *)
       (cd $MH && CARGO_NET_OFFLINE=true cargo build --release --offline -p vmux 2>&1 | grep -E "^error" -A8 | head -30)
-      $MH/target/release/vmux $ID --tier $TIER --out /tmp/mut-$ID.json >/dev/null 2>&1
-      out=$(cat /tmp/mut-$ID.json)
+      $MH/target/release/vmux $ID --tier $TIER --out $MUT-out-$ID.json >/dev/null 2>&1
+      out=$(cat $MUT-out-$ID.json)
       ;;
   esac
   echo "$out" | python3 -c "
